@@ -235,6 +235,46 @@ def corr_compile(ck, cs):
         compile_case(cs, ck, atoms, bonds, 'malformed')
 
 
+_TRACE_LINE = []
+
+
+def traced_get_mapping(c, clo, ta, tb, scope):
+    """the real explicit-stack loop of _get_mapping under sys.settrace: (n, depth, path[:depth]) right after every `stack.pop()`, and what is
+    yielded.  The line is located by its text (exactly one occurrence, else the tie is reported broken)."""
+    import inspect
+    import sys
+    from chython.algorithms import isomorphism as iso
+    if not _TRACE_LINE:
+        lines, start = inspect.getsourcelines(iso._get_mapping)
+        hits = [start + i for i, text in enumerate(lines) if text.strip() == 'current = linear_query[depth][0]']
+        prev = [start + i for i, text in enumerate(lines) if text.strip() == 'n, depth = stack.pop()']
+        if len(hits) != 1 or len(prev) != 1 or hits[0] != prev[0] + 1:
+            raise RuntimeError('_get_mapping: the statement after `n, depth = stack.pop()` was not found')
+        _TRACE_LINE.append(hits[0])
+    code = iso._get_mapping.__code__
+    states = []
+
+    def local(frame, event, arg):
+        if event == 'line' and frame.f_lineno == _TRACE_LINE[0]:
+            loc = frame.f_locals
+            states.append((loc['n'], loc['depth'], tuple(loc['path'][:loc['depth']])))
+        return local
+
+    def tracer(frame, event, arg):
+        return local if frame.f_code is code else None
+    old = sys.gettrace()
+    sys.settrace(tracer)
+    try:
+        out = list(iso._get_mapping(c, clo, ta, tb, scope))
+    finally:
+        sys.settrace(old)
+    return out, states
+
+
+def trace_term(states):
+    return lst([tup(zraw(n), zraw(d), lst(list(p), zraw)) for n, d, p in states])
+
+
 def matcher_case(cs, ck, patt, targ, scope, tag):
     """_get_mapping called directly, per compiled component, on integer-labelled graphs"""
     from chython.algorithms.isomorphism import _compile_query, _get_mapping
@@ -245,6 +285,12 @@ def matcher_case(cs, ck, patt, targ, scope, tag):
         assert err is None, (patt, targ, scope, err)
         cs.add(f'maps_eqb (zget_mapping {lst([zentry(e) for e in c])} {zclo(clo)} {zpairs(ta)} {zadj(tb)} {lst(sorted(scope), zraw)}) {maps_term(got)}',
                ('_get_mapping', tag, patt, targ, sorted(scope)))
+        # intermediate states: every pop of the explicit stack (node, depth, valid part of the path) against the model's pre-order trace
+        got2, states = traced_get_mapping(c, clo, ta, tb, scope)
+        assert got2 == got
+        cs.add(f'trace_eqb (zget_mapping_trace {lst([zentry(e) for e in c])} {zclo(clo)} {zpairs(ta)} {zadj(tb)} {lst(sorted(scope), zraw)}) {trace_term(states)}',
+               ('_get_mapping trace', tag, patt, targ, sorted(scope)))
+        ck.count(f'_get_mapping:trace:pops={min(len(states) // 5 * 5, 30)}+')
         ck.case(('gm', repr(patt), repr(targ), tuple(sorted(scope))), nontrivial=len(got) > 0)
         ck.count(f'_get_mapping:{tag}:mappings={min(len(got), 5)}' + ('+' if len(got) >= 5 else ''))
 
@@ -293,6 +339,20 @@ def corr_matcher(ck, cs):
             patt = mk_graph([x + 10 for x in pn], [(x + 10, y + 10) for x, y in pe])
             targ = mk_graph(tn, te)
             matcher_case(cs, ck, patt, targ, set(tn), 'exh1')
+    if ck.tier != 'quick':
+        # thorough: every connected pattern on 4 nodes x every target on 4 nodes, and two atom labels on the 3-node patterns x 4-node targets
+        p4 = [(list(range(1, 5)), e) for e in all_graphs(4) if is_connected(range(1, 5), e)]
+        t4 = [(list(range(1, 5)), e) for e in all_graphs(4)]
+        for pn, pe in p4:
+            for tn, te in t4:
+                matcher_case(cs, ck, mk_graph([x + 10 for x in pn], [(x + 10, y + 10) for x, y in pe]), mk_graph(tn, te), set(tn), 'exh4')
+        for pn, pe in [x for x in patterns if len(x[0]) == 3]:
+            for tn, te in t4:
+                for lab in range(8):
+                    for tlab in (0b0101, 0b0011, 0b0110):
+                        patt = mk_graph([x + 10 for x in pn], [(x + 10, y + 10) for x, y in pe], alabel=lambda n, lab=lab: 6 + (lab >> (n - 11) & 1))
+                        targ = mk_graph(tn, te, alabel=lambda n, tlab=tlab: 6 + (tlab >> (n - 1) & 1))
+                        matcher_case(cs, ck, patt, targ, set(tn), 'exh-labels')
     # every pattern on <= 3 nodes (disconnected ones included) x every target on <= 4 nodes through the wrapper
     allp = []
     for n in range(0, 4):
@@ -1791,7 +1851,8 @@ def search(ck):
 
 
 def run(ck):
-    ck.trusted += ['correspondence runner harness/checks/C07.py + harness/coqcases.py + harness/coqmol.py', 'CachedMethods shim harness/boot.py',
+    ck.trusted += ['translator tools/gen_isoops.py (Python ast: operators, call directions, filter arguments, scope tests, component split, loop exits of isomorphism.py)',
+                   'correspondence runner harness/checks/C07.py + harness/coqcases.py + harness/coqmol.py', 'CachedMethods shim harness/boot.py',
                    'CPython 3.12.1', 'brute-force reference enumerator and own primitive evaluators in harness/checks/C07.py (search only)',
                    'RDKit 2026.3 SMARTS matcher (search only, common sub-language)']
     ck.assumptions += [
@@ -1807,7 +1868,7 @@ def run(ck):
                         'labelled pairs with scopes and both filter values; corpus molecules with patterns cut by mol.substructure, small patterns, '
                         'two-component patterns/targets; SMARTS through truth tables; automorphism mappings.  non-trivial = at least one mapping. '
                         'search: brute force over all injective maps, targets <= 8 atoms; non-trivial = at least one embedding exists')
-    proved = common.standard_proof_steps(ck, translators=[])   # no generated tables: the model is hand-written
+    proved = common.standard_proof_steps(ck, translators=['isoops', 'stereo'])   # control skeleton of isomorphism.py + C12's sign tables
     tied, failing = correspondence(ck)
     if not tied:
         directed(ck, failing)
